@@ -131,6 +131,16 @@ def pair_case(rep, model, r, seed, n):
     tx.step(("enter",))
     ops_tx = [("mac=", bytes(r.randrange(256) for _ in range(6))), ("channel=", ch), ("pa_level=", pa)]
     ops_tx += [("name=", name), ("show_pa_level=", show)]
+    if r.random() < 0.5:
+        # what is advertised is what is set when advertise() is called, in whatever order it was set -- and re-set
+        r.shuffle(ops_tx)
+        if r.random() < 0.5:
+            k = r.randrange(len(ops_tx))
+            ops_tx.insert(k, ("pa_level=", r.choice([-18, -12, -6, 0])))
+            last = [o for o in ops_tx if o[0] == "pa_level="][-1]
+            ops_tx.remove(last)
+            ops_tx.append(("pa_level=", pa))
+        rep.count("sender-setters-shuffled")
     chunks = build_chunks(items)
     ops_tx.append(("advertise", chunks))
     res = None
